@@ -61,7 +61,7 @@ def octet_helpers(modname):
 
 
 LEAN_TY = {'int': 'Int', 'bool': 'Bool', 'tup': 'Py.Tup', 'tups': 'List Py.Tup', 'fun:tup->tup': '(Py.Tup → Py.M Py.Tup)', 'unit': 'Unit', 'fun:int->unit': '(Int → Py.M Unit)',
-           'pairs': 'List (Py.Tup × Py.Tup)', 'pair': '(Py.Tup × Py.Tup)', 'bio': 'Py.BytesIO', 'otup': 'Option Py.Tup', 'rs': 'Int',
+           'pairs': 'List (Py.Tup × Py.Tup)', 'pair': '(Py.Tup × Py.Tup)', 'bio': 'Py.BytesIO', 'otup': 'Option Py.Tup', 'obool': 'Option Bool', 'rs': 'Int',
            'fun:int,int->otup': '(Int → Int → Option Py.Tup)'}
 
 
@@ -786,6 +786,10 @@ def tr_block(cx, env, stmts, ret_ty, tail):
         want = cx.spec.get('returns_value')
         if want == 'otup' and tv == 'tup':
             v, tv = '(some %s)' % v, 'otup'
+        if want == 'obool' and tv == 'bool':
+            v, tv = '(some %s)' % v, 'obool'
+        if want == 'obool' and isinstance(s.value, ast.Constant) and s.value.value is None:
+            v, tv = '(none : Option Bool)', 'obool'
         if want and tv != want:
             raise Unsupported('return of %s where %s is declared' % (tv, want))
         return pre + ['pure (%s, %s)' % (v, ', '.join(outs))]
@@ -1131,7 +1135,23 @@ class OneTurn(ast.NodeTransformer):
     def visit_Expr(self, node):
         if isinstance(node.value, ast.Yield) and 'SubstrateUnderrunError' in unparse(node.value):
             return ast.Return(value=ast.Constant(value=None))
+        if isinstance(node.value, ast.Yield) and node.value.value is not None:
+            return ast.Return(value=node.value.value)          # the generator's last word: the turn answers it
         return node
+
+    def visit_Continue(self, node):
+        return ast.Pass()                     # after a handed-out underrun the loop comes round again: the turn is over
+
+    def inline_loops(self, body):
+        """`while True: A; break` at the top level of the block (a retry loop around one attempt): the attempt, once"""
+        out = []
+        for st in body:
+            if (isinstance(st, ast.While) and unparse(st.test) == 'True' and st.body and isinstance(st.body[-1], ast.Break)
+                    and not st.orelse):
+                out.extend(st.body[:-1])
+            else:
+                out.append(st)
+        return out
 
     def visit_Break(self, node):
         return ast.Return(value=ast.Name(id=self.value_name, ctx=ast.Load()))
@@ -1157,7 +1177,8 @@ def slice_body(fn, spec):
         # one turn of a generator's `while True:` loop: `yield <underrun>` hands the underrun out and the loop comes round again
         # (the next turn starts from the same code) - the turn answers None; `break` leaves the loop for the final
         # `yield <value>` - the turn answers that value
-        body = OneTurn(spec['iteration']).rewrite(body)
+        ot = OneTurn(spec['iteration'])
+        body = ot.rewrite(ot.inline_loops(body))
     if 'after' in spec:
         idx = None
         for i, s in enumerate(body):
